@@ -291,6 +291,30 @@ func buildOps(th bool) {
 			return func() { f(z, a, b) }
 		}})
 	}
+	// comparisons against a fixed operand: secrets EQUAL to it and secrets whose stored (Montgomery) limbs agree with it
+	// in the low 0..3 limbs and differ in the next one - a limb loop that stops at the first difference runs a
+	// different number of times for each of them
+	nearSecrets := func(pub, m *big.Int) []mc.Val {
+		rinv := new(big.Int).ModInverse(new(big.Int).Lsh(big.NewInt(1), 256), m)
+		out := []mc.Val{{Label: "equal to the fixed operand", V: new(big.Int).Set(pub)}}
+		for k := uint(0); k < 4; k++ {
+			d := new(big.Int).Mul(new(big.Int).Lsh(big.NewInt(1), 64*k), rinv)
+			out = append(out, mc.Val{Label: fmt.Sprintf("stored limbs agree with the fixed operand below limb %d", k), V: new(big.Int).Mod(new(big.Int).Add(pub, d), m)})
+		}
+		return out
+	}
+	ops = append(ops, op{"scalar.Equal(secret, fixed operand) for secrets sharing low stored limbs with it", nearSecrets(pubS, ref.N), func(sec *big.Int) func() {
+		a, b := lib.MkSC(sec), lib.MkSC(pubS)
+		return func() { a.Equal(b); b.Equal(a) }
+	}})
+	ops = append(ops, op{"field.Equal(secret, fixed operand) for secrets sharing low stored limbs with it", nearSecrets(pubFE, ref.P), func(sec *big.Int) func() {
+		a, b := lib.MkFE(sec), lib.MkFE(pubFE)
+		return func() { a.Equal(b); b.Equal(a) }
+	}})
+	ops = append(ops, op{"PrivateKey.Equal(fixed key) for secrets sharing low stored limbs with it", nearSecrets(pubS, ref.N), func(sec *big.Int) func() {
+		a, b := lib.MkPriv(sec), lib.MkPriv(pubS)
+		return func() { a.Equal(b) }
+	}})
 	ops = append(ops, op{"scalar.SetCanonicalBytes / SetBytes (secret bytes)", scArith, func(sec *big.Int) func() {
 		b := ref.A32(sec)
 		z := secp256k1.NewScalar()
